@@ -327,6 +327,12 @@ func Extras() []Extra {
 			return xg("mix3", xg("first", xg("pair", xi(1), xi(2))), xi(2), xi(3))
 		}},
 		{Name: "call-int-as-function", E: func() b6.Expression { return xc(xg("add", xi(1), xi(2)), xi(3)) }},
+		{Name: "shadowing-lambda-with-repeated-parameter", E: func() b6.Expression {
+			return xl("a", xg("pair", xi(1), xl("a", xg("add", xs("a"), xs("a")))))
+		}},
+		{Name: "shadowing-lambda-with-repeated-parameter-applied", E: func() b6.Expression {
+			return xg("call", xg("second", xg("call", xl("a", xg("pair", xi(1), xl("a", xg("add", xs("a"), xs("a"))))), xi(5))), xi(7))
+		}},
 		{Name: "lambda-pipeline", E: func() b6.Expression {
 			e := xc(xl("a", xg("add", xs("a"), xi(1))), xi(4))
 			c := e.AnyExpression.(b6.CallExpression)
